@@ -54,7 +54,7 @@ Inductive mout :=
 
 Record snapsub := { ss_c : conn; ss_r : rid; ss_state : nat; ss_direct : nat; ss_indirect : nat; ss_isent : nat }.
 
-Record snapent := { se_r : rid; se_count : Z; se_mqsub : bool; se_evict : bool; se_nsubs : nat; se_nres : nat }.
+Record snapent := { se_r : rid; se_count : Z; se_mqsub : bool; se_evict : bool; se_nsubs : nat; se_nres : nat; se_who : list conn }.
 
 Inductive tev :=
 | TConn (c : conn)
